@@ -598,6 +598,55 @@ def check_bson_size(chk, tier):
                          {'function': fn['q']}, fn['q'])
     chk.require(n >= 2, 'R07.bson.size: closers not found')
 
+def check_decimal128_fields(chk, tier):
+    """BSON decimal128: the text-to-bits and bits-to-text halves place the exponent field at the same bit positions."""
+    rid = 'R07.bson.decimal128'
+    chk.rule(rid, 'decimal128 exponent field: the set of bit positions at which decimal128_from_chars stores the biased exponent '
+                  '(`(e & 0x3fff) << K` into the high 64-bit word: 49 for the ordinary form, 47 for the large-significand form) equals the '
+                  'set at which decimal128_to_chars extracts it (`(high >> k) & exponent_mask` on the upper 32-bit half: k + 32)', floor=1)
+    facts = F.load(['bson'], tier)
+    if 'bson' not in chk.units: chk.units.append('bson')
+    tc = [f for f in facts.functions if f['n'] == 'decimal128_to_chars' and f.get('body') is not None and not f.get('dep')]
+    fc = [f for f in facts.functions if f['n'] == 'decimal128_from_chars' and f.get('body') is not None and not f.get('dep')]
+    chk.require(tc and fc, 'decimal128_to_chars / decimal128_from_chars not found')
+    tcf, fcf = tc[0], fc[0]
+    chk.analysed(tcf); chk.analysed(fcf)
+    # the half word the reader works on: a local initialised from (dec.high >> W)
+    off = {}
+    for x in A.walk_no_lambda(tcf['body']):
+        if x.get('k') in ('BinaryOperator',) and x.get('op') == '=' or x.get('k') == 'VarDecl':
+            rhs = x.get('rhs') if x.get('k') == 'BinaryOperator' else x.get('init')
+            lhs = A.strip(x.get('lhs'), casts=True) if x.get('k') == 'BinaryOperator' else x
+            if rhs is None or lhs is None: continue
+            for y in A.walk(rhs):
+                if y.get('k') == 'BinaryOperator' and y.get('op') == '>>' and A.const(y.get('rhs')) is not None and (A.strip(y.get('lhs'), casts=True) or {}).get('k') == 'MemberExpr':
+                    off[lhs.get('id') if lhs.get('k') in ('DeclRefExpr', 'VarDecl') else None] = A.const(y['rhs'])
+    reads = set(); mask = None
+    for x in A.walk_no_lambda(tcf['body']):
+        if x.get('k') == 'BinaryOperator' and x.get('op') == '&':
+            m = A.strip(x.get('rhs'), casts=True)
+            if m is not None and m.get('k') == 'DeclRefExpr' and 'exponent_mask' in m.get('n', ''):
+                sh = A.strip(x.get('lhs'), casts=True)
+                if sh is not None and sh.get('k') == 'BinaryOperator' and sh.get('op') == '>>' and A.const(sh.get('rhs')) is not None:
+                    w = A.strip(sh.get('lhs'), casts=True)
+                    base = off.get(w.get('id')) if w is not None and w.get('k') == 'DeclRefExpr' else None
+                    chk.require(base is not None, '%s: the word the exponent is read from is not derived from dec.high by a shift' % rid)
+                    reads.add(A.const(sh['rhs']) + base)
+                    mask = A.const(m)
+    writes = set()
+    for x in A.walk_no_lambda(fcf['body']):
+        if x.get('k') == 'BinaryOperator' and x.get('op') == '<<' and A.const(x.get('rhs')) is not None:
+            l = A.strip(x.get('lhs'), casts=True)
+            if l is not None and l.get('k') == 'BinaryOperator' and l.get('op') == '&' and A.const(l.get('rhs')) == (mask if mask is not None else 0x3fff) and \
+               any(y.get('k') == 'DeclRefExpr' and 'exponent' in y.get('n', '') for y in A.walk(l.get('lhs'))):
+                writes.add(A.const(x['rhs']))
+    chk.require(len(reads) >= 1 and len(writes) >= 2, '%s: exponent field accesses not recognised (reads %s, writes %s)' % (rid, sorted(reads), sorted(writes)))
+    site = 'include/jsoncons_ext/bson/bson_decimal128.hpp exponent field positions'
+    if reads == writes: chk.ok(rid, site, {'positions': sorted(reads), 'mask': hex(mask or 0)})
+    else:
+        chk.fail(rid, site, tcf['file'], tcf['l'], 'decimal128_to_chars reads the biased exponent at bit positions %s of the high word, decimal128_from_chars stores it at %s: '
+                 'one of the two encodings (ordinary / large significand) is decoded with the exponent of the other' % (sorted(reads), sorted(writes)), None, tcf['q'])
+
 def check_cbor_tag_flags(chk, tier):
     """A CBOR tag applies to the one data item that follows it."""
     from .. import cfg as C, guards as G
@@ -667,6 +716,7 @@ def run(chk, tier, only_rule=None):
     check_bson(chk, tier)
     check_bson_size(chk, tier)
     check_cbor_tag_flags(chk, tier)
+    check_decimal128_fields(chk, tier)
     from . import c10
     c10.r10_7(chk, tier)     # a closer that does not give the depth back makes a flat, valid document hit the nesting limit
     from . import c02
